@@ -212,7 +212,7 @@ def check_c09(prop, tier, replay=None):
     n = 14 if tier == "quick" else 300
     bases = []
     for name in ("core_dialect", "chain_subslot", "limits_profile", "teams_alts", "calendars", "dags", "container_gate"):
-        bases += getattr(gen, name)(rng, n)
+        bases += getattr(gen, name)(rng, n * 3 if name == "container_gate" else n)     # the profile of the pick-order clause
     jobs, pairs, payload = [], [], {}
     for pid, p in bases:
         bid = "C09-%s" % pid
